@@ -56,8 +56,13 @@ def analysis_a(res, rule):
     if not need <= set(rows):
         raise AnalysisError(f"LAYOUT: get_src_dict: expected entries {sorted(need)} (per-source properties as '*'), found {sorted(rows)}")
     for k, f in rows.items():
-        ok = f == GMP
         label = "per-source property (tile_group_property)" if k == "*" else k
+        if f is None or unknownish(f):
+            # the layout was lost (a construct outside the transfer table): nothing is claimed about this entry
+            res.ob(f"{rule}:A:get_src_dict[{label}] axis 0 = G*M*P", True, {"rule": rule, "entry": label, "axis0": "not followed: " + repr(out.value[k])}, nontrivial=False)
+            res.undecided.append(f"{rule}: row layout of get_src_dict entry `{label}` not followed ({out.value[k]!r})")
+            continue
+        ok = f == GMP
         res.ob(f"{rule}:A:get_src_dict[{label}] axis 0 = G*M*P", ok, {"rule": rule, "entry": label, "axis0": "*".join(f) if f else repr(out.value[k])})
         if not ok and not dom.flist:
             n = node
